@@ -105,3 +105,53 @@ package lexer
 //@   requires streamOK(p) && ckOK(p, checkpoint)
 //@   modifies p.Checkpoint
 //@   ensures p.Checkpoint == checkpoint && plInv(p)
+
+// ---------------------------------------------------------------------------------------------
+// api.go
+// ---------------------------------------------------------------------------------------------
+
+//@ func (*Position).Advance [C04 C07]
+//@   modifies *p
+//@   ensures p.Offset == old(p.Offset) + len(span) && p.Filename == old(p.Filename)
+
+// ---------------------------------------------------------------------------------------------
+// stateful.go
+// ---------------------------------------------------------------------------------------------
+
+//@ global ReturnRule == Rule{"returnToParent", "", nil}
+
+//@ pred ruleOK(r compiledRule) = !typeis(r.Action, include) && (r.RE != nil ==> uf("re_anchored", "Bool", r.RE))
+//@ pred rulesOK(d *StatefulDefinition) = !d.matchLongest && foralls(s, forall(i, 0, len(d.rules[s]), ruleOK(d.rules[s][i])))
+//@ pred slInv(l *StatefulLexer) = l.def != nil && len(l.stack) >= 1 && rulesOK(l.def)
+
+//@ interface Action.applyAction
+//@   params a, lexer, groups
+//@   requires !typeis(a, include) && lexer != nil && len(groups) >= 1 && len(lexer.stack) >= 1
+//@   modifies lexer.stack
+//@   ensures len(lexer.stack) >= 1
+//@   ensures result == nil ==> groups[0] != ""
+//@   ensures result != nil ==> lexer.stack == old(lexer.stack)
+
+//@ func (*StatefulLexer).getPattern [C07 C03]
+//@   requires l.def != nil && len(l.stack) >= 1 && ruleOK(candidate)
+//@   ensures result1 == nil ==> result0 != nil && uf("re_anchored", "Bool", result0)
+//@   ensures candidate.RE != nil ==> result1 == nil && result0 == candidate.RE
+
+//@ func BackrefRegex [C07 C03]
+//@   trusted
+//@   ensures result1 == nil ==> result0 != nil && uf("re_anchored", "Bool", result0)
+
+//@ func (*StatefulLexer).Next [C07 C04 C03 C06]
+//@   requires slInv(l)
+//@   modifies l.stack, l.data, l.pos
+//@   ensures slInv(l)
+//@   ensures old(l.data) == "" ==> result1 == nil && result0.Type == EOF && result0.Value == "" && result0.Pos == old(l.pos)
+//@   ensures old(l.data) == "" ==> l.stack == old(l.stack) && l.data == old(l.data) && l.pos == old(l.pos)
+//@   ensures result1 == nil ==> (result0.Type == EOF && result0.Value == "" && l.data == "" && result0.Pos == l.pos) || (len(result0.Value) > 0 && len(l.data) + len(result0.Value) <= len(old(l.data)))
+//@   loop 1 invariant slInv(l) && len(l.data) <= len(old(l.data))
+//@   loop 1 decreases len(l.data), len(l.stack)
+//@   loop 2 invariant slInv(l) && match == nil && rule == nil && -1 <= rangeindex && len(l.data) > 0
+//@   loop 2 invariant forall(j, 0, len(rules), ruleOK(rules[j]))
+//@   loop 2 decreases len(rules) - rangeindex
+//@   loop 3 invariant 0 <= i && i % 2 == 0 && len(groups) == i / 2
+//@   loop 3 decreases len(match) - i
